@@ -376,14 +376,53 @@ impl TestFunction {
             }
         }
 
+        fn typed<'a>(
+            ok: bool,
+            name: &str,
+            expected: &str,
+            f: TestFunction,
+        ) -> Result<TestFunction, JsonPathError> {
+            if ok {
+                Ok(f)
+            } else {
+                Err(JsonPathError::InvalidJsonPath(format!(
+                    "Invalid argument for the function `{}`: expected {}",
+                    name, expected
+                )))
+            }
+        }
+
         match (name, args.as_slice()) {
-            ("length", [a]) => Ok(TestFunction::Length(Box::new(a.clone()))),
-            ("value", [a]) => Ok(TestFunction::Value(a.clone())),
-            ("count", [a]) => Ok(TestFunction::Count(
-                with_node_type_validation(a, name)?.clone(),
-            )),
-            ("search", [a, b]) => Ok(TestFunction::Search(a.clone(), b.clone())),
-            ("match", [a, b]) => Ok(TestFunction::Match(a.clone(), b.clone())),
+            ("length", [a]) => typed(
+                a.is_value_type(),
+                name,
+                "a value",
+                TestFunction::Length(Box::new(a.clone())),
+            ),
+            ("value", [a]) => typed(
+                a.is_nodes_type(),
+                name,
+                "a query",
+                TestFunction::Value(a.clone()),
+            ),
+            ("count", [a]) => typed(
+                a.is_nodes_type(),
+                name,
+                "a query",
+                TestFunction::Count(with_node_type_validation(a, name)?.clone()),
+            ),
+            ("search", [a, b]) => typed(
+                a.is_value_type() && b.is_value_type(),
+                name,
+                "two values",
+                TestFunction::Search(a.clone(), b.clone()),
+            ),
+            ("match", [a, b]) => typed(
+                a.is_value_type() && b.is_value_type(),
+                name,
+                "two values",
+                TestFunction::Match(a.clone(), b.clone()),
+            ),
             ("length" | "value" | "count" | "match" | "search", args) => {
                 Err(JsonPathError::InvalidJsonPath(format!(
                     "Invalid number of arguments for the function `{}`: got {}",
@@ -442,6 +481,35 @@ impl FnArg {
     }
     pub fn is_filter(&self) -> bool {
         matches!(self, FnArg::Filter(_))
+    }
+
+    /// ValueType of RFC 9535 2.4.1: a literal, a singular query or a value-returning function
+    pub fn is_value_type(&self) -> bool {
+        fn singular(segments: &[Segment]) -> bool {
+            segments.iter().all(|s| {
+                matches!(
+                    s,
+                    Segment::Selector(Selector::Name(_)) | Segment::Selector(Selector::Index(_))
+                )
+            })
+        }
+        match self {
+            FnArg::Literal(_) => true,
+            FnArg::Test(t) => match &**t {
+                Test::RelQuery(segments) => singular(segments),
+                Test::AbsQuery(q) => singular(&q.segments),
+                Test::Function(f) => f.is_comparable(),
+            },
+            FnArg::Filter(_) => false,
+        }
+    }
+
+    /// NodesType of RFC 9535 2.4.1: a query
+    pub fn is_nodes_type(&self) -> bool {
+        match self {
+            FnArg::Test(t) => matches!(**t, Test::RelQuery(_) | Test::AbsQuery(_)),
+            _ => false,
+        }
     }
 }
 
